@@ -2363,8 +2363,16 @@ class ProvDocument(ProvBundle):
 
         :return: :py:class:`ProvDocument`
         """
-        document = ProvDocument(self._unified_records())
-        document._namespaces = self._namespaces
+        # the new document gets its own namespace manager with the same
+        # declarations (sharing the manager would let later changes to one
+        # document leak into the other)
+        document = ProvDocument(
+            self._unified_records(),
+            namespaces=list(self._namespaces.get_registered_namespaces()),
+        )
+        default_namespace = self._namespaces.get_default_namespace()
+        if default_namespace is not None:
+            document.set_default_namespace(default_namespace.uri)
         for bundle in self.bundles:
             unified_bundle = bundle.unified()
             document.add_bundle(unified_bundle)
